@@ -16,7 +16,7 @@ from vf.sem import pyeval
 ID = "C14"
 RULE = (
     "Linear chains of 2-6 Select/Where/SelectMany stages over ds in function form: producer stages package values "
-    "(scalars, objects, member sequences) into tuples/lists/dicts nested up to 3 deep with field names carrying the "
+    "(scalars, objects, member sequences, sequences of packages built by a nested Select) into tuples/lists/dicts nested up to 3 deep with field names carrying the "
     "reserved prefix f_ (or named like attributes of python's dict: values, items, keys, get, copy, pop, update), consumer stages only project with constant indices/keys/attribute names (incl. nested Select/"
     "Where over a packaged sequence that refers to other packaged fields, called lambdas and First() over packaged "
     "sequences); the last stage returns a scalar/object (variant: a final package). All binder-naming schemes. "
@@ -30,6 +30,8 @@ ASSUMPTIONS = [
     "such attribute is a left-over projection.",
     "In the final-package variant constructions may remain only in number <= the tuple/list/dict constructors in the "
     "final element type (known to the generator).",
+    "When a producer packages a SEQUENCE of packages (nested Select returning tuples), a construction may survive as the source of an "
+    "operator that only iterates it; for those cases only left-over projections are asserted.",
     "Result equality is C02's job; it is evaluated here too as a guard against a vacuous pass.",
 ]
 BUDGET = {"quick": (8, 500), "thorough": (16, 8000)}
@@ -67,7 +69,7 @@ def _has_seq(t):
 @st.composite
 def _case(draw, maxstages):
     naming = draw(st.sampled_from(["distinct", "same", "reuse", "reuse", "argn", "astnames"]))
-    cfg = typed.Cfg(naming=naming, method_form=0.0, odd_selectors=False, ifexp=draw(st.booleans()), first_on_seq=False, kwonly_in_called=True, dict_method_keys=True, duplicate_keys=False)
+    cfg = typed.Cfg(naming=naming, method_form=0.0, odd_selectors=False, ifexp=draw(st.booleans()), first_on_seq=False, kwonly_in_called=True, dict_method_keys=True, duplicate_keys=False, seq_of_packages=True)
     cx = typed.Ctx(draw, cfg)
     env = [("ds", typed.S(typed.EVT))]
     n = draw(st.integers(2, maxstages))
@@ -123,7 +125,7 @@ def _case(draw, maxstages):
         body = typed.gen(cx, e2, draw(st.sampled_from([typed.I, typed.F, typed.B])), 1)
         src = f"Select({src}, lambda {v}: {body})"
     return {"src": src, "data": draw(typed.dataset()), "naming": naming, "final_package": bool(final_package),
-            "final_containers": _count_containers(et)}
+            "final_containers": _count_containers(et), "seq_of_packages": cx.used_seq_of_packages}
 
 
 def strategy(tier):
@@ -189,6 +191,11 @@ def check(case) -> Result:
     if left_proj:
         return r.fail(f"projection left in simplified query: {c02.unp(left_proj[0])}   in   {c02.unp(out)}   from   {case['src']}")
     left = _containers(out)
+    if case.get("seq_of_packages"):
+        # a sequence of packages may legitimately survive as the SOURCE of an operator whose lambda never looks at its elements (it
+        # is iterated, not taken apart): for these cases only left-over projections are asserted
+        r.labels.append("sequence-of-packages")
+        left = []
     if left:
         if not case["final_package"]:
             return r.fail(f"construction left in simplified query: {c02.unp(left[0])}   in   {c02.unp(out)}   from   {case['src']}")
